@@ -262,10 +262,23 @@ impl<'tcx> Cx<'tcx> {
                         // pointer to a static: name the static
                         if let rustc_middle::mir::interpret::Scalar::Ptr(ptr, _) = sc {
                             let (prov, _) = ptr.prov_and_relative_offset();
-                            if let Some(rustc_middle::mir::interpret::GlobalAlloc::Static(sd)) =
-                                tcx.try_get_global_alloc(prov.alloc_id())
-                            {
-                                fields.push(("static", J::s(self.path(sd))));
+                            match tcx.try_get_global_alloc(prov.alloc_id()) {
+                                Some(rustc_middle::mir::interpret::GlobalAlloc::Static(sd)) => {
+                                    fields.push(("static", J::s(self.path(sd))));
+                                }
+                                Some(rustc_middle::mir::interpret::GlobalAlloc::Memory(alloc)) => {
+                                    // `&[u8; N]` literal (b"..."): its bytes
+                                    let is_u8_arr = match ty.kind() {
+                                        ty::Ref(_, inner, _) => matches!(inner.kind(), ty::Array(t, _) if *t == tcx.types.u8),
+                                        _ => false,
+                                    };
+                                    let a = alloc.inner();
+                                    if is_u8_arr && a.len() <= 256 && a.provenance().ptrs().is_empty() {
+                                        let b = a.inspect_with_uninit_and_ptr_outside_interpreter(0..a.len());
+                                        fields.push(("bytes", J::Arr(b.iter().map(|x| J::n(*x)).collect())));
+                                    }
+                                }
+                                _ => {}
                             }
                         }
                         if let Ok(i) = sc.try_to_scalar_int() {
